@@ -19,6 +19,10 @@ class NotEncodable(Exception):
     """Construct outside the encoded fragment: the item is skipped and counted, never silently passed."""
 
 
+class EnginePanics(Exception):
+    """The plan makes the engine panic whatever the data (e.g. an unsupported key type reaches the storage seek)."""
+
+
 class Unresolved(Exception):
     """A column reference that the operator's input does not produce (the executor would panic)."""
 
@@ -405,21 +409,27 @@ class Enc:
         f = p[3]
         if f not in ('true', 'null'):
             if self.scan_ranges is not None:
-                keep = self.range_keep(show(f), r, t)
+                keeps = self.range_keep(show(f), r, t)
             else:
-                keep = lambda row: istrue(self._bool(self.expr(f, r, row, outer)))
-            r = Rel(r.schema, [(And(pr, keep(row)), row) for pr, row in r.rows], types, r.okeys)
+                keeps = [istrue(self._bool(self.expr(f, r, row, outer))) for pr, row in r.rows]
+            r = Rel(r.schema, [(And(pr, k), row) for (pr, row), k in zip(r.rows, keeps)], types, r.okeys)
         return r
 
     def range_keep(self, ftext, r, t):
-        """Rows storage returns for a pushed-down filter, per the planner->storage contract:
-        the executor turns the filter into a KeyRange (given by the driver from the real analysis) and storage
-        keeps rows whose *first scanned column* lies inside it under DataValue ordering; no range => all rows."""
+        """Rows storage returns for a pushed-down filter, per the planner->storage contract as read from
+        executor/mod.rs (Scan arm), secondary/transaction.rs (scan_inner), rowset/disk_rowset.rs (start_rowid) and
+        rowset/rowset_iterator.rs (next_batch_inner):
+          * the executor turns the filter into a KeyRange (given here by the driver, from the real analysis);
+          * a start bound that is not an Int32 makes `start_rowid` panic;
+          * inside a row-set (rows of one INSERT, stored in primary-key order) the iterator keeps the positions from the
+            first row whose *first scanned column* reaches the start bound up to the first row that passes the end
+            bound, comparing with DataValue's derived ordering (variant first, NULL smallest).
+        Returns one keep-condition per slot."""
         rg = self.scan_ranges.get(ftext, 'MISSING')
         if rg == 'MISSING':
             raise NotEncodable('no KeyRange reported for scan filter ' + ftext)
         if rg is None:
-            return lambda row: bv(True)
+            return [bv(True) for _ in r.rows]
         coltype = r.types[0]
 
         def bound_val(txt):
@@ -429,17 +439,17 @@ class Enc:
                 return None
             kind, val = m.groups()
             mm = re.match(r'(\w+)(?:\((.*)\))?$', val)
-            variant, payload = mm.group(1), mm.group(2)
-            return kind, variant, payload
+            return kind, mm.group(1), mm.group(2)
         start, end = bound_val(rg['start']), bound_val(rg['end'])
+        if start and start[1] != 'Int32':
+            raise EnginePanics('range scan with a %s start key: DiskRowset::start_rowid supports Int32 only' % start[1])
         VARIANT_RANK = ['Null', 'Bool', 'Int16', 'Int32', 'Int64', 'Float64', 'String']
-        coltv = self.scan_col_variant.get((t, r.schema[0])) if hasattr(self, 'scan_col_variant') else None
+        colv = (getattr(self, 'scan_col_variant', None) or {}).get((t, r.schema[0])) or {'I': 'Int32', 'B': 'Bool', 'S': 'String'}[coltype]
 
-        def cmp_to(row0, variant, payload):
-            """(lt, eq) of the stored key vs the bound under derived Ord of DataValue (variant index first)."""
-            colv = coltv or {'I': 'Int32', 'B': 'Bool', 'S': 'String'}[coltype]
+        def cmp_to(x0, variant, payload):
+            """(lt, eq) of a stored value vs the bound under the derived Ord of DataValue."""
             if variant == 'Null':
-                return bv(False), row0.n
+                return bv(False), x0.n
             if variant == colv:
                 if variant == 'Bool':
                     c = IntVal(1 if payload == 'true' else 0)
@@ -447,22 +457,37 @@ class Enc:
                     c = self.const("'" + payload.strip('"') + "'").v
                 else:
                     c = IntVal(int(payload))
-                x = as_int(row0)
-                return Or(row0.n, x < c), And(Not(row0.n), x == c)
-            # different variants: ordering decided by variant index alone (NULL key is still smallest)
+                x = as_int(x0)
+                return Or(x0.n, x < c), And(Not(x0.n), x == c)
             less = VARIANT_RANK.index(colv) < VARIANT_RANK.index(variant)
-            return Or(row0.n, bv(less)), bv(False)
-
-        def keep(row):
-            c = []
+            return Or(x0.n, bv(less)), bv(False)
+        # the table's slots are one row-set: stored in primary-key order
+        pk = [i for i, col in enumerate(self.tabtypes[t]) if len(col) > 3 and col[3]]
+        if pk:
+            base = self.tabs[t]
+            for i in range(len(base)):
+                for j in range(i + 1, len(base)):
+                    ki = [(base[i][1][c], False) for c in pk]
+                    kj = [(base[j][1][c], False) for c in pk]
+                    self.cons.append(Implies(And(base[i][0], base[j][0]), self._lex_le(ki, kj)))
+        keeps = []
+        reached, passed = bv(False), bv(False)
+        for pr, row in r.rows:
+            x0 = row[0]
             if start:
-                lt, eq = cmp_to(row[0], start[1], start[2])
-                c.append(Not(lt) if start[0] == 'Included' else And(Not(lt), Not(eq)))
+                lt, eq = cmp_to(x0, start[1], start[2])
+                at = Not(lt) if start[0] == 'Included' else And(Not(lt), Not(eq))
+            else:
+                at = bv(True)
             if end:
-                lt, eq = cmp_to(row[0], end[1], end[2])
-                c.append(Or(lt, eq) if end[0] == 'Included' else lt)
-            return And(c) if c else bv(True)
-        return keep
+                lt, eq = cmp_to(x0, end[1], end[2])
+                over = And(Not(lt), Not(eq)) if end[0] == 'Included' else Not(lt)
+            else:
+                over = bv(False)
+            reached = Or(reached, And(pr, at))
+            passed = Or(passed, And(pr, over))
+            keeps.append(And(reached, Not(passed)))
+        return keeps
 
     def p_values(self, p, outer):
         rows = [lst(r) for r in p[1:]]
